@@ -334,14 +334,19 @@ class World:
             if not sending:
                 self.accepted_c.append((self.ms, f))
         ps = getattr(self, "pending_s", [])
-        if ps and self.s.steps and self.s.steps[-1].sel.get("tunsel"):
+        if ps and self.s.steps and self.ms >= getattr(self, "_s_tun_retry", 0):
             slots = self.s.steps[-1].slots
             d = slots.get(0)
-            f = ps.pop(0)
+            f = ps[0]
             room = d is not None and d.get("au") == "1" and (d["out"].split("/")[0] == "0" or int(d["oq"].split("/")[1]) < 4 or d.get("conn") == "0")
-            self.sop("tun " + vlib.hx(f)); did = True
-            if room:
-                self.accepted_s.append((self.ms, f))
+            st = self.sop("tun " + vlib.hx(f))
+            if st is not None and any(e[0] == "tunskip" for e in st.events):
+                # the server's select did not include the tun device (every session has a packet queued): the frame stays in the device's queue
+                self._s_tun_retry = self.ms + 50
+            else:
+                ps.pop(0); did = True
+                if room:
+                    self.accepted_s.append((self.ms, f))
         return did
 
     def settle(self, max_ms=30000):
